@@ -29,14 +29,15 @@ OTHERS = [0, 1, 2]
 
 
 def build(rng, pos, defined, order, where, nother):
-    ref = rng.choice(["@ref", "@r", "@any_x", "@zz9"])
+    ref = rng.choice(["@ref", "@r", "@any_x", "@zz9", "@scratch-reg", "@save-all.2", "@a-b"])
     body_str = rng.choice(["mov", "push", "ov", "%rax", "rax", "0x10"])
     if pos in ("operand", "body_operand"):
         body_str = rng.choice(["%rax", "rax", "0x10", "%r8"])
     if pos == "deref_value":
         body_str = rng.choice(["%rax", "rbp", "0x8"])
     if defined == "no_at_name":
-        ref = ref[1:] + "_m"          # the definition AND its uses carry the bare name: only the name check can object
+        # the definition AND its uses carry a name that does not START with '@': only the name check can object
+        ref = rng.choice([ref[1:] + "_m", ref[1:] + "_m", " " + ref, "\t" + ref, "\u00a0" + ref, "x" + ref, "_" + ref])
     target = {"name": ref, "pattern": body_str}
     if rng.random() < 0.3 and pos not in ("key_times", "key_operands", "deref_value"):
         target["pattern"] = [body_str]
